@@ -94,7 +94,7 @@ def main():
     if '--tier' in sys.argv:
         tier = sys.argv[sys.argv.index('--tier') + 1]
     chk = vlib.Check(PROP, tier)
-    L = int(os.environ.get('VERIF_L', '0')) or (4 if tier == 'quick' else 5)
+    L = int(os.environ.get('VERIF_L', '0')) or (4 if tier == 'quick' else 6)
     try:
         bins = vlib.build('dbg', ('lyrun', 'lypeep'))
     except vlib.HarnessError as e:
